@@ -67,7 +67,13 @@ def cases(draw):
         return {'ours': ours, 'peer': peer, 'mode': mode, 'openwait': openwait, 'delay_open': 1.0, 'steps': [], 'tail': tail, 'stall': stall, 'period': round(period, 2)}
     else:
         tail = 'silence'
-    return {'ours': ours, 'peer': peer, 'mode': mode, 'openwait': openwait, 'delay_open': draw(st.sampled_from([-2.0, -1.0, 1.0, 2.0, 30.0])), 'steps': steps, 'tail': tail}
+    case = {'ours': ours, 'peer': peer, 'mode': mode, 'openwait': openwait, 'delay_open': draw(st.sampled_from([-2.0, -1.0, 1.0, 2.0, 30.0])), 'steps': steps, 'tail': tail}
+    if mode == 'established' and draw(st.integers(0, 2)) == 0:
+        # a neighbor nobody takes received routes from (adj-rib-in false, no process): its UPDATEs are framed and not parsed;
+        # the remote keeps the session alive with UPDATEs only
+        case['rib_in'] = False
+        case['steps'] = [[g, 'update'] for g, _ in steps]
+    return case
 
 
 def config(case: dict) -> str:
@@ -77,7 +83,7 @@ def config(case: dict) -> str:
         return exa.neighbor_text(families=['ipv4 unicast'], hold=case['ours'], capability={'asn4': 'enable', 'route-refresh': 'enable'}, extra='  rate-limit 100;', body='\n  static {\n' + routes + '\n  }')
     if case['mode'] == 'write-stall':
         body = '\n  static {\n    route 60.0.0.0/24 next-hop 1.2.3.4;\n    route 60.0.1.0/24 next-hop 1.2.3.4 med 5;\n  }'
-    return exa.neighbor_text(families=['ipv4 unicast'], hold=case['ours'], capability={'asn4': 'enable', 'route-refresh': 'enable'}, body=body)
+    return exa.neighbor_text(families=['ipv4 unicast'], hold=case['ours'], capability={'asn4': 'enable', 'route-refresh': 'enable'}, body=body, extra='  adj-rib-in false;' if case.get('rib_in') is False else '')
 
 
 def check(case: dict) -> dict:
@@ -306,6 +312,8 @@ def check(case: dict) -> dict:
         nontrivial = True
     if any(k == 'update' for _, k in case['steps']):
         classes.append('update-as-liveness')
+    if case.get('rib_in') is False:
+        classes.append('adj-rib-in-false')
     return {'nontrivial': nontrivial, 'classes': classes}
 
 
@@ -319,6 +327,10 @@ def fixed_cases() -> list:
         out.append({'ours': h, 'peer': peer, 'mode': 'long-batch', 'openwait': 5, 'delay_open': 1.0, 'steps': [], 'tail': 'silence', 'routes': 80, 'period': round(max(0.5, hh / 3.0), 2)})
         out.append({'ours': h, 'peer': peer, 'mode': 'write-stall', 'openwait': 5, 'delay_open': 1.0, 'steps': [], 'tail': 'silence', 'stall': hh * 2.0, 'period': round(hh / 2.0, 2)})
         out.append({'ours': h, 'peer': peer, 'mode': 'keepalive-withheld', 'openwait': 5, 'delay_open': 1.0, 'steps': [], 'tail': 'silence'})
+    for h, peer in ((3, 90), (90, 9)):
+        hh = min(h, peer)
+        # UPDATEs only, every H/3, for three hold times, to a neighbor that keeps no Adj-RIB-In; then silence
+        out.append({'ours': h, 'peer': peer, 'mode': 'established', 'openwait': 5, 'delay_open': 1.0, 'steps': [[round(hh / 3.0, 2), 'update'] for _ in range(9)], 'tail': 'silence', 'rib_in': False})
     out.append({'ours': 0, 'peer': 30, 'mode': 'keepalive-withheld', 'openwait': 5, 'delay_open': 1.0, 'steps': [], 'tail': 'silence'})
     return out
 
